@@ -543,13 +543,13 @@ impl<'a> RefZone<'a> {
         self.nodes.get(n).and_then(|m| m.get(&t)).copied()
     }
     /// first zone cut met walking down from the apex towards `n` (RFC 1034 §4.3.2 step 3b)
-    fn cut(&self, n: &[String], qtype: u16, is_qname: bool) -> Option<LName> {
+    fn cut(&self, n: &[String], qtype: u16) -> Option<LName> {
         let ol = self.origin.len();
         for k in (ol + 1)..=n.len() {
             let anc = n[n.len() - k..].to_vec();
             if self.get(&anc, T_NS).is_some() {
                 // the DS RRset of a delegation lives on the parent side of the cut
-                if k == n.len() && qtype == T_DS && is_qname {
+                if k == n.len() && qtype == T_DS {
                     return None;
                 }
                 return Some(anc);
@@ -581,6 +581,8 @@ pub struct Expected {
     /// number of CNAMEs followed
     pub cnames: usize,
     pub wildcard_used: bool,
+    /// names resolved: the query name, then every CNAME target followed
+    pub visited: Vec<LName>,
 }
 
 fn out_of(rs: &Rs, owner: &LName) -> OutRs {
@@ -589,7 +591,7 @@ fn out_of(rs: &Rs, owner: &LName) -> OutRs {
 
 fn reference(origin: &LName, zone: &[Rs], qname: &LName, qtype: u16) -> Expected {
     let z = RefZone::new(origin, zone);
-    let mut exp = Expected { refused: false, answers: vec![], terminal: Terminal::NoData, cnames: 0, wildcard_used: false };
+    let mut exp = Expected { refused: false, answers: vec![], terminal: Terminal::NoData, cnames: 0, wildcard_used: false, visited: vec![] };
     if !z.in_zone(qname) {
         exp.refused = true;
         return exp;
@@ -598,9 +600,9 @@ fn reference(origin: &LName, zone: &[Rs], qname: &LName, qtype: u16) -> Expected
     let mut seen: BTreeSet<LName> = BTreeSet::new();
     loop {
         seen.insert(cur.clone());
-        let first = exp.cnames == 0;
+        exp.visited.push(cur.clone());
         // step 3b: referral
-        if let Some(cut) = z.cut(&cur, qtype, first) {
+        if let Some(cut) = z.cut(&cur, qtype) {
             exp.terminal = Terminal::Referral(cut);
             return exp;
         }
@@ -610,7 +612,7 @@ fn reference(origin: &LName, zone: &[Rs], qname: &LName, qtype: u16) -> Expected
         } else {
             // closest encloser: longest existing ancestor (the apex always exists)
             let mut ce = cur[1..].to_vec();
-            while !z.exists(&ce) {
+            while !ce.is_empty() && !z.exists(&ce) {
                 ce = ce[1..].to_vec();
             }
             let mut w = vec!["*".to_string()];
@@ -623,10 +625,7 @@ fn reference(origin: &LName, zone: &[Rs], qname: &LName, qtype: u16) -> Expected
             }
         };
         let Some(node) = node else {
-            exp.terminal = if first { Terminal::NxDomain } else { Terminal::ChainEnd };
-            if !first {
-                exp.terminal = Terminal::NxDomain;
-            }
+            exp.terminal = Terminal::NxDomain;
             return exp;
         };
         if qtype == T_ANY {
@@ -638,7 +637,7 @@ fn reference(origin: &LName, zone: &[Rs], qname: &LName, qtype: u16) -> Expected
             exp.answers.push(out_of(c, &owner));
             exp.cnames += 1;
             let target = c.rds[0].target.clone().unwrap();
-            if !z.in_zone(&target) || seen.contains(&target) {
+            if !z.in_zone(&target) || seen.contains(&target) || exp.cnames >= 64 {
                 exp.terminal = Terminal::ChainEnd;
                 return exp;
             }
@@ -685,15 +684,31 @@ fn check(c: &Case, exp: &Expected, r: &Resp) -> Vec<(&'static str, String)> {
     }
     let an = data_only(&r.an);
     let ns = data_only(&r.ns);
+    let one = |x: &Option<OutRs>| x.as_ref().map(|x| sorted(&[x.clone()]));
     let soa = z.get(&c.origin, T_SOA).map(|s| out_of(s, &c.origin));
     let apex_ns = z.get(&c.origin, T_NS).map(|s| out_of(s, &c.origin));
     // never data from at/below a cut in the answer section (the DS of the cut excepted)
     for rs in &an {
-        if let Some(cut) = z.cut(&rs.name, rs.ty, true) {
+        if let Some(cut) = z.cut(&rs.name, rs.ty) {
             f.push(("below-cut", format!("answer section carries {} which is at/below the zone cut {}", out_txt(&[rs.clone()]), name_txt(&cut))));
         }
     }
-    let chain_truncated = exp.cnames >= 8 && an.len() >= 8 && an.len() < exp.answers.len() && sorted(&an) == sorted(&exp.answers[..an.len()]);
+    // a server may stop chasing after a bounded number of RRsets (hickory: 8); the resolver restarts
+    let chain_truncated = exp.cnames >= 8 && an.len() >= 8 && an.len() <= exp.answers.len() && sorted(&an) == sorted(&exp.answers[..an.len()]);
+    if chain_truncated {
+        if r.rcode != "NOERROR" || !r.aa {
+            f.push(("answer", format!("partial CNAME chain must come with NOERROR and AA, got {} aa={}", r.rcode, b(r.aa))));
+        }
+        return f;
+    }
+    // authority of an answer that is not negative for the original name: not prescribed;
+    // accepted: nothing, the apex NS, or (after a CNAME whose target has no data) the SOA
+    let free_auth = |ns: &Vec<OutRs>, f: &mut Vec<(&'static str, String)>| {
+        let ok = ns.is_empty() || Some(sorted(ns)) == one(&apex_ns) || (exp.cnames > 0 && Some(sorted(ns)) == one(&soa));
+        if !ok {
+            f.push(("authority", format!("authority section must be empty, the apex NS or the SOA, got {}", out_txt(ns))));
+        }
+    };
     match &exp.terminal {
         Terminal::Referral(cut) => {
             let want = out_of(z.get(cut, T_NS).unwrap(), cut);
@@ -710,34 +725,23 @@ fn check(c: &Case, exp: &Expected, r: &Resp) -> Vec<(&'static str, String)> {
             if exp.cnames == 0 && r.aa {
                 f.push(("referral-aa", format!("referral at {} must not set AA", name_txt(cut))));
             }
+            if exp.cnames > 0 && !r.aa {
+                f.push(("aa", "authoritative answer (CNAME owned by the zone) without AA".into()));
+            }
         }
         Terminal::Data | Terminal::ChainEnd => {
             if r.rcode != "NOERROR" {
                 f.push(("answer", format!("NOERROR expected, got {}", r.rcode)));
             }
-            if sorted(&an) != sorted(&exp.answers) && !chain_truncated {
+            if sorted(&an) != sorted(&exp.answers) {
                 f.push(("answer", format!("answer section must be {}, got {}", out_txt(&exp.answers), out_txt(&an))));
             }
             if !r.aa {
                 f.push(("aa", "authoritative answer without AA".into()));
             }
-            let ok_auth = ns.is_empty() || Some(sorted(&ns)) == apex_ns.as_ref().map(|x| sorted(&[x.clone()])) || (exp.cnames > 0 && Some(sorted(&ns)) == soa.as_ref().map(|x| sorted(&[x.clone()])));
-            if !ok_auth {
-                f.push(("authority", format!("authority of a positive answer must be empty or the apex NS, got {}", out_txt(&ns))));
-            }
+            free_auth(&ns, &mut f);
         }
-        Terminal::AnyOf(all) => {
-            if r.rcode != "NOERROR" {
-                f.push(("answer", format!("NOERROR expected for ANY at a node with data, got {}", r.rcode)));
-            }
-            let all = sorted(all);
-            if an.is_empty() || !sorted(&an).iter().all(|x| all.contains(x)) {
-                f.push(("answer", format!("ANY must be answered with RRsets of the node {}, got {}", out_txt(&all), out_txt(&an))));
-            }
-            if !r.aa {
-                f.push(("aa", "authoritative answer without AA".into()));
-            }
-        }
+        Terminal::AnyOf(_) => unreachable!("ANY is checked through check_any"),
         Terminal::NoData | Terminal::NxDomain => {
             let nx = exp.terminal == Terminal::NxDomain;
             if exp.cnames == 0 {
@@ -748,7 +752,7 @@ fn check(c: &Case, exp: &Expected, r: &Resp) -> Vec<(&'static str, String)> {
                 if !an.is_empty() {
                     f.push((if nx { "nxdomain" } else { "nodata" }, format!("negative answer expected, answer section has {}", out_txt(&an))));
                 }
-                if Some(sorted(&ns)) != soa.as_ref().map(|x| sorted(&[x.clone()])) {
+                if Some(sorted(&ns)) != one(&soa) {
                     f.push(("negative-soa", format!("negative answer must carry exactly the SOA in the authority section, got {}", out_txt(&ns))));
                 }
             } else {
@@ -756,13 +760,10 @@ fn check(c: &Case, exp: &Expected, r: &Resp) -> Vec<(&'static str, String)> {
                 if !(r.rcode == "NOERROR" || (nx && r.rcode == "NXDOMAIN")) {
                     f.push(("answer", format!("after a CNAME chain rcode must be NOERROR{}, got {}", if nx { " or NXDOMAIN" } else { "" }, r.rcode)));
                 }
-                if sorted(&an) != sorted(&exp.answers) && !chain_truncated {
+                if sorted(&an) != sorted(&exp.answers) {
                     f.push(("answer", format!("answer section must be the CNAME chain {}, got {}", out_txt(&exp.answers), out_txt(&an))));
                 }
-                let ok_auth = ns.is_empty() || Some(sorted(&ns)) == soa.as_ref().map(|x| sorted(&[x.clone()]));
-                if !ok_auth {
-                    f.push(("authority", format!("authority after a CNAME chain must be empty or the SOA, got {}", out_txt(&ns))));
-                }
+                free_auth(&ns, &mut f);
             }
             if !r.aa {
                 f.push(("aa", "authoritative answer without AA".into()));
@@ -772,13 +773,286 @@ fn check(c: &Case, exp: &Expected, r: &Resp) -> Vec<(&'static str, String)> {
     f
 }
 
+/// `ANY` (RFC 8482): the response must be a correct response to a query for one concrete type
+/// the answering node owns (any type if the node is a CNAME: the server may then also chase it).
+fn check_any(c: &Case, exp: &Expected, r: &Resp, qn: &LName) -> Vec<(&'static str, String)> {
+    let Terminal::AnyOf(all) = &exp.terminal else {
+        return check(c, exp, r);
+    };
+    let mut cands: Vec<u16> = all.iter().map(|x| x.ty).collect();
+    if cands.contains(&T_CNAME) {
+        cands.extend(QTYPES.iter().filter(|t| **t != T_ANY));
+    }
+    let mut first: Option<Vec<(&'static str, String)>> = None;
+    for t in cands {
+        let e = reference(&c.origin, &c.zone, qn, t);
+        let f = check(c, &e, r);
+        if f.is_empty() {
+            return f;
+        }
+        first.get_or_insert(f);
+    }
+    vec![(
+        "any",
+        format!(
+            "ANY must be answered like a query for one of the types the node owns ({}), got {} an={}",
+            out_txt(&sorted(all)),
+            r.rcode,
+            out_txt(&data_only(&r.an))
+        ),
+    )]
+}
+
+// ------------------------------------------------------------------------------------------
+// deviation classes — the decidable predicates of lean/HickoryVerif/Model/AuthZoneDev.lean,
+// re-implemented here; every `q` case is followed by a `dev` case on which the two are compared.
+// ------------------------------------------------------------------------------------------
+
+mod dev {
+    use super::*;
+
+    pub fn get<'a>(z: &'a [Rs], n: &[String], t: u16) -> Option<&'a Rs> {
+        z.iter().find(|r| r.name == n && r.ty == t)
+    }
+    fn is_suffix_or_eq(anc: &[String], n: &[String]) -> bool {
+        is_suffix(anc, n)
+    }
+    pub fn name_exists(z: &[Rs], n: &[String]) -> bool {
+        z.iter().any(|r| is_suffix_or_eq(n, &r.name))
+    }
+    /// top-down list of zone cuts on the way to `n`
+    pub fn cuts(z: &[Rs], o: &[String], n: &[String], t: u16) -> Vec<LName> {
+        let mut v = vec![];
+        for k in 0..=n.len() {
+            let s = &n[n.len() - k..];
+            if is_suffix_or_eq(o, s) && s != o && get(z, s, T_NS).is_some() && !(t == T_DS && s == n) {
+                v.push(s.to_vec());
+            }
+        }
+        v
+    }
+    pub fn closest_encloser(z: &[Rs], n: &[String]) -> LName {
+        let mut n = n;
+        while !n.is_empty() {
+            n = &n[1..];
+            if name_exists(z, n) {
+                return n.to_vec();
+            }
+        }
+        vec![]
+    }
+    fn walk<'a>(z: &'a [Rs], qname: &[String], qtype: u16) -> Option<&'a Rs> {
+        let mut s = qname;
+        while !s.is_empty() {
+            match (get(z, s, T_NS), get(z, s, T_SOA).is_some()) {
+                (Some(ns), false) => {
+                    if !(qtype == T_DS && s == qname) {
+                        return Some(ns);
+                    }
+                }
+                (Some(_), true) => return None,
+                (None, _) => {}
+            }
+            s = &s[1..];
+        }
+        None
+    }
+    pub fn scan<'a>(z: &'a [Rs], n: &[String], t: u16) -> Option<&'a Rs> {
+        z.iter().find(|r| r.name == n && (r.ty == t || r.ty == T_CNAME))
+    }
+    fn lookup_exact<'a>(z: &'a [Rs], n: &[String], t: u16) -> Option<&'a Rs> {
+        walk(z, n, t).or_else(|| scan(z, n, t))
+    }
+    pub fn is_wildcard_name(n: &[String]) -> bool {
+        n.first().is_some_and(|l| l == "*")
+    }
+    /// the wildcard owner `inner_lookup_wildcard` ends up using
+    pub fn wild_source(z: &[Rs], n: &[String], t: u16) -> Option<LName> {
+        if n.is_empty() || is_wildcard_name(n) {
+            return None;
+        }
+        let mut rest = &n[1..];
+        loop {
+            let mut w = vec!["*".to_string()];
+            w.extend(rest.iter().cloned());
+            if lookup_exact(z, &w, t).is_some() {
+                return Some(w);
+            }
+            if rest.is_empty() {
+                return None;
+            }
+            rest = &rest[1..];
+        }
+    }
+    pub fn replace_any(z: &[Rs], n: &[String]) -> u16 {
+        let here: Vec<&Rs> = z.iter().filter(|r| r.name == n).collect();
+        if let Some(r) = here.iter().find(|r| matches!(r.ty, T_CNAME | T_A | T_AAAA | T_MX)) {
+            return r.ty;
+        }
+        here.first().map(|r| r.ty).unwrap_or(T_A)
+    }
+    pub fn eff_type(z: &[Rs], qn: &[String], qt: u16) -> u16 {
+        if qt == T_ANY { replace_any(z, qn) } else { qt }
+    }
+    fn star_ce(z: &[Rs], n: &[String]) -> LName {
+        let mut w = vec!["*".to_string()];
+        w.extend(closest_encloser(z, n));
+        w
+    }
+    pub fn no_cut(z: &[Rs], o: &[String], n: &[String], t: u16) -> bool {
+        cuts(z, o, n, t).is_empty()
+    }
+    pub fn existing_no_block(z: &[Rs], o: &[String], n: &[String], t: u16) -> bool {
+        no_cut(z, o, n, t) && name_exists(z, n) && scan(z, n, t).is_none() && wild_source(z, n, t).is_some()
+    }
+    pub fn climbs_any(z: &[Rs], o: &[String], n: &[String], t: u16) -> bool {
+        no_cut(z, o, n, t) && !name_exists(z, n) && wild_source(z, n, t).is_some_and(|w| w != star_ce(z, n))
+    }
+    pub fn no_synth(z: &[Rs], o: &[String], n: &[String], t: u16) -> bool {
+        no_cut(z, o, n, t) && !name_exists(z, n) && name_exists(z, &star_ce(z, n)) && wild_source(z, n, t).is_none()
+    }
+    pub fn zone_wf(z: &[Rs], o: &[String]) -> bool {
+        get(z, o, T_SOA).is_some()
+            && get(z, o, T_NS).is_some()
+            && z.iter().all(|r| is_suffix_or_eq(o, &r.name))
+            && z.iter().all(|r| r.ty != T_SOA || r.name == o)
+            && z.iter().all(|r| {
+                r.ty != T_CNAME
+                    || (r.rds.first().is_some_and(|x| x.target.is_some()) && z.iter().all(|x| x.name != r.name || x.ty == T_CNAME))
+            })
+            && z.iter().all(|r| r.ty != T_NS || !is_wildcard_name(&r.name))
+    }
+
+    /// classes that hold of the case, in the order of `Drv/C10.lean: classesOf`
+    pub fn classes(c: &Case, qn: &LName, visited: &[LName]) -> Vec<&'static str> {
+        let (z, o) = (&c.zone[..], &c.origin[..]);
+        let t = eff_type(z, qn, c.qtype);
+        let per = |f: &dyn Fn(&[Rs], &[String], &[String], u16) -> bool| visited.iter().any(|n| f(z, o, n, t));
+        let mut v = vec![];
+        if per(&existing_no_block) {
+            v.push("existing-name-does-not-block");
+        }
+        if per(&|z, o, n, t| climbs_any(z, o, n, t) && !is_wildcard_name(&closest_encloser(z, n))) {
+            v.push("climbs-past-closest-encloser");
+        }
+        if per(&|z, o, n, t| climbs_any(z, o, n, t) && is_wildcard_name(&closest_encloser(z, n))) {
+            v.push("wildcard-not-self-blocking");
+        }
+        if visited.first().is_some_and(|n| no_synth(z, o, n, t) && !is_wildcard_name(n)) {
+            v.push("nodata-as-nxdomain");
+        }
+        if per(&|z, o, n, t| no_synth(z, o, n, t) && is_wildcard_name(n)) {
+            v.push("wildcard-qname-not-expanded");
+        }
+        if per(&|z, o, n, t| cuts(z, o, n, t).len() >= 2) {
+            v.push("nested-cut");
+        }
+        let in_zone = is_suffix_or_eq(o, qn);
+        let referral = in_zone && !no_cut(z, o, qn, t);
+        if referral {
+            v.push("referral-aa");
+        }
+        if referral && (c.qtype == T_NS || c.qtype == T_ANY) {
+            v.push("ns-any-below-cut");
+        }
+        if referral && c.qtype == T_SOA {
+            v.push("soa-below-cut");
+        }
+        if visited.iter().skip(1).any(|n| !no_cut(z, o, n, t)) {
+            v.push("cname-into-cut");
+        }
+        if c.qtype == T_ANY && !z.iter().any(|r| r.name == *qn) {
+            v.push("any-not-at-owner");
+        }
+        v
+    }
+}
+
+/// names the standard algorithm resolves for the query with the type the server really looks up,
+/// bounded like `Spec.Rfc1034.chase` (at most 8 names)
+fn visited_names(c: &Case, qn: &LName) -> Vec<LName> {
+    let t = dev::eff_type(&c.zone, qn, c.qtype);
+    let mut v = reference(&c.origin, &c.zone, qn, t).visited;
+    v.truncate(8);
+    v
+}
+
+/// known-finding class of a failing clause ("" = none): a class whose predicate holds of the
+/// case and which explains that clause.
+fn classify(classes: &[&'static str], clause: &str) -> String {
+    let pick = |cands: &[&str]| -> String {
+        cands.iter().find(|c| classes.contains(c)).map(|c| format!("C10.{c}")).unwrap_or_default()
+    };
+    let wild = [
+        "existing-name-does-not-block",
+        "climbs-past-closest-encloser",
+        "wildcard-not-self-blocking",
+        "nodata-as-nxdomain",
+        "wildcard-qname-not-expanded",
+    ];
+    match clause {
+        "referral-aa" => pick(&["referral-aa"]),
+        "below-cut" => {
+            let mut v = vec!["ns-any-below-cut", "cname-into-cut"];
+            v.extend(wild);
+            pick(&v)
+        }
+        // ANY is judged as a whole (one verdict): any deviation on its path explains it
+        "any" => {
+            let mut v = vec!["ns-any-below-cut", "cname-into-cut", "nested-cut"];
+            v.extend(wild);
+            pick(&v)
+        }
+        "referral" => pick(&["ns-any-below-cut", "soa-below-cut", "cname-into-cut", "nested-cut"]),
+        "nodata" | "nxdomain" | "negative-soa" | "answer" | "authority" => pick(&wild),
+        _ => String::new(),
+    }
+}
+
 // ------------------------------------------------------------------------------------------
 
 pub fn exec(line: &str, rec: &mut Recorder) {
     let t: Vec<&str> = line.split_whitespace().collect();
-    let Some(c) = case_parse(&t) else {
+    if t.first() == Some(&"dev") {
+        // class predicates only: harness mirror vs Lean definition
+        let mut tt = t.clone();
+        tt[0] = "q";
+        let Some(mut c) = case_parse(&tt) else {
+            rec.stat("skipped.unparsable-case");
+            return;
+        };
+        let canon = canon_zone(c.zone.clone());
+        let line_owned;
+        let line = if canon != c.zone {
+            c.zone = canon;
+            line_owned = format!("dev{}", &case_line(&c)[1..]);
+            &line_owned[..]
+        } else {
+            line
+        };
+        let qn = lower(&c.qname);
+        let cl = dev::classes(&c, &qn, &visited_names(&c, &qn));
+        let out = format!(
+            "wf={} classes={} thm=ok",
+            b(dev::zone_wf(&c.zone, &c.origin)),
+            if cl.is_empty() { "-".to_string() } else { cl.join(",") }
+        );
+        rec.case(line.to_string(), out);
+        rec.stat("op.dev");
+        return;
+    }
+    let Some(mut c) = case_parse(&t) else {
         rec.stat("skipped.unparsable-case");
         return;
+    };
+    let canon = canon_zone(c.zone.clone());
+    let line_owned;
+    let line = if canon != c.zone {
+        c.zone = canon;
+        line_owned = case_line(&c);
+        &line_owned[..]
+    } else {
+        line
     };
     let Some(cat) = build_catalog(&c) else {
         rec.stat("skipped.zone-not-stored-as-written");
@@ -801,6 +1075,7 @@ pub fn exec(line: &str, rec: &mut Recorder) {
     let idx = rec.case(line.to_string(), resp_txt(&resp));
     let qn = lower(&c.qname);
     let exp = reference(&c.origin, &c.zone, &qn, c.qtype);
+    rec.stat("op.q");
     rec.stat(&format!("mode.{}", c.mode));
     rec.stat(&format!("qtype.{}", ty_name(c.qtype)));
     rec.stat(&format!("rcode.{}", resp.rcode));
@@ -809,29 +1084,44 @@ pub fn exec(line: &str, rec: &mut Recorder) {
         match &exp.terminal {
             _ if exp.refused => "refused".to_string(),
             Terminal::Data => format!("data{}{}", if exp.cnames > 0 { "+cname" } else { "" }, if exp.wildcard_used { "+wildcard" } else { "" }),
-            Terminal::AnyOf(_) => "any".into(),
+            Terminal::AnyOf(_) => format!("any{}", if exp.wildcard_used { "+wildcard" } else { "" }),
             Terminal::NoData => format!("nodata{}{}", if exp.cnames > 0 { "+cname" } else { "" }, if exp.wildcard_used { "+wildcard" } else { "" }),
             Terminal::NxDomain => format!("nxdomain{}", if exp.cnames > 0 { "+cname" } else { "" }),
             Terminal::Referral(_) => format!("referral{}", if exp.cnames > 0 { "+cname" } else { "" }),
             Terminal::ChainEnd => "cname-chain-end".into(),
         }
     ));
-    rec.stat(&format!("zone.rrsets.{}", (c.zone.len() / 4) * 4));
-    if !exp.refused && !(exp.terminal == Terminal::NxDomain && exp.cnames == 0 && !exp.wildcard_used && c.zone.len() <= 2) {
+    rec.stat(&format!("chain.len.{}", exp.cnames.min(9)));
+    rec.stat(&format!("zone.rrsets.{:02}+", (c.zone.len() / 4) * 4));
+    if !exp.refused && !(exp.terminal == Terminal::NxDomain && exp.cnames == 0 && c.zone.len() <= 2) {
         rec.nontrivial(idx);
     }
-    let fails = check(&c, &exp, &resp);
+    // RFC 4592 §4.2: NS at a wildcard owner is undefined; a second SOA or an owner outside the
+    // zone is not a zone — no verdict beyond "answers, no panic" (the model still has to agree)
+    if !dev::zone_wf(&c.zone, &c.origin) {
+        rec.stat("oracle.skipped.ill-formed-zone");
+        return;
+    }
+    let fails = if c.qtype == T_ANY { check_any(&c, &exp, &resp, &qn) } else { check(&c, &exp, &resp) };
+    if fails.is_empty() {
+        rec.stat("oracle.ok");
+        return;
+    }
+    let classes = dev::classes(&c, &qn, &visited_names(&c, &qn));
     for (clause, what) in fails {
-        let class = classify(&c, &exp, &resp, clause);
+        let class = classify(&classes, clause);
         rec.stat(&format!("oracle-fail.{}", if class.is_empty() { clause } else { &class }));
         rec.fail(idx, format!("{clause}: {what}"), &class);
     }
 }
 
-/// known-finding class of a failing clause ("" = none).  Mirrors the decidable predicates of
-/// `Model/AuthZone.lean` / `Proofs/C10.lean`.
-fn classify(_c: &Case, _exp: &Expected, _r: &Resp, _clause: &str) -> String {
-    String::new()
+/// a `q` case followed by its `dev` twin
+fn exec_both(c: &Case, rec: &mut Recorder) {
+    let l = case_line(c);
+    exec(&l, rec);
+    if c.mode == 'u' {
+        exec(&format!("dev{}", &l[1..]), rec);
+    }
 }
 
 // ------------------------------------------------------------------------------------------
@@ -901,7 +1191,10 @@ fn gen_zone(r: &mut Rng, origin: &LName) -> Vec<Rs> {
             let l = if i == 0 { *r.pick(&labels) } else { *r.pick(&["a", "b", "c", "*"]) };
             pre.push(l);
         }
-        owners.push(under(&pre, origin));
+        let o = under(&pre, origin);
+        if !owners.contains(&o) {
+            owners.push(o);
+        }
     }
     let target = |r: &mut Rng, owners: &Vec<LName>| -> LName {
         match r.below(8) {
@@ -931,6 +1224,7 @@ fn gen_zone(r: &mut Rng, origin: &LName) -> Vec<Rs> {
                 let t = target(r, &owners);
                 z.push(Rs { name: o.clone(), ty: T_CNAME, rds: vec![rdt(0, &t)] });
             }
+            8 | 9 | 10 if o[0] == "*" && !r.chance(1, 12) => z.push(Rs { name: o.clone(), ty: T_TXT, rds: vec![rd(4)] }),
             8 | 9 | 10 => {
                 // delegation, with or without glue / DS
                 let inside = r.chance(1, 2);
@@ -1001,10 +1295,170 @@ fn gen_qnames(r: &mut Rng, origin: &LName, zone: &[Rs]) -> Vec<LName> {
     v
 }
 
+/// structured zones around one feature each (chains, loops, nested cuts, the RFC 4592 example)
+fn gen_special(r: &mut Rng, origin: &LName) -> Vec<Rs> {
+    let mut z: Vec<Rs> = vec![
+        Rs { name: origin.clone(), ty: T_SOA, rds: vec![rd(0)] },
+        Rs { name: origin.clone(), ty: T_NS, rds: vec![rdt(0, &nm("ns.other."))] },
+    ];
+    match r.below(6) {
+        0 | 1 => {
+            // CNAME chain c0 -> c1 -> ... -> end
+            let k = r.range(1, 10) as usize;
+            let nmk = |i: usize| under(&[&format!("c{i}")], origin);
+            let wild_at = if r.chance(1, 4) { Some(r.below(k as u64) as usize) } else { None };
+            for i in 0..k {
+                let owner = if wild_at == Some(i) && i > 0 {
+                    // the link is synthesised from a wildcard: target of the previous one is x.w<i>
+                    under(&["*", &format!("c{i}")], origin)
+                } else {
+                    nmk(i)
+                };
+                let next = if i + 1 < k {
+                    if wild_at == Some(i + 1) { under(&["x", &format!("c{}", i + 1)], origin) } else { nmk(i + 1) }
+                } else {
+                    match r.below(8) {
+                        0 => nmk(0),                          // loop to the start
+                        1 => nmk(i),                          // self loop
+                        2 => nm("host.other."),               // leaves the zone
+                        3 => under(&["nx"], origin),          // no such name
+                        4 => under(&["x", "cut"], origin),    // below a cut
+                        5 => under(&["ent"], origin),         // empty non-terminal
+                        6 => under(&["x", "wild"], origin),   // wildcard
+                        _ => under(&["end"], origin),
+                    }
+                };
+                z.push(Rs { name: owner, ty: T_CNAME, rds: vec![rdt(0, &next)] });
+            }
+            z.push(Rs { name: under(&["end"], origin), ty: T_A, rds: vec![rd(1)] });
+            z.push(Rs { name: under(&["end"], origin), ty: T_TXT, rds: vec![rd(2)] });
+            z.push(Rs { name: under(&["cut"], origin), ty: T_NS, rds: vec![rdt(0, &under(&["ns", "cut"], origin))] });
+            z.push(Rs { name: under(&["ns", "cut"], origin), ty: T_A, rds: vec![rd(9)] });
+            z.push(Rs { name: under(&["a", "ent"], origin), ty: T_A, rds: vec![rd(3)] });
+            z.push(Rs { name: under(&["*", "wild"], origin), ty: T_A, rds: vec![rd(4)] });
+        }
+        2 => {
+            // nested cuts, occluded data, DS, glue
+            z.push(Rs { name: under(&["sub"], origin), ty: T_NS, rds: vec![rdt(0, &under(&["ns", "sub"], origin)), rdt(0, &nm("ns.other."))] });
+            z.push(Rs { name: under(&["ns", "sub"], origin), ty: T_A, rds: vec![rd(9)] });
+            z.push(Rs { name: under(&["deep", "sub"], origin), ty: T_NS, rds: vec![rdt(0, &nm("ns.other."))] });
+            if r.chance(1, 2) {
+                z.push(Rs { name: under(&["sub"], origin), ty: T_DS, rds: vec![rd(7)] });
+            }
+            if r.chance(1, 2) {
+                z.push(Rs { name: under(&["a", "deep", "sub"], origin), ty: T_A, rds: vec![rd(66)] });
+            }
+            if r.chance(1, 2) {
+                z.push(Rs { name: under(&["*", "sub"], origin), ty: T_TXT, rds: vec![rd(5)] });
+            }
+            z.push(Rs { name: under(&["alias"], origin), ty: T_CNAME, rds: vec![rdt(0, &under(&["www", "deep", "sub"], origin))] });
+            z.push(Rs { name: under(&["*"], origin), ty: T_A, rds: vec![rd(1)] });
+        }
+        3 => {
+            // RFC 4592 §2.2.1 example zone (SRV replaced by TXT)
+            z.push(Rs { name: under(&["*"], origin), ty: T_TXT, rds: vec![rd(1)] });
+            z.push(Rs { name: under(&["*"], origin), ty: T_MX, rds: vec![rdt(10, &under(&["host1"], origin))] });
+            z.push(Rs { name: under(&["sub", "*"], origin), ty: T_TXT, rds: vec![rd(2)] });
+            z.push(Rs { name: under(&["host1"], origin), ty: T_A, rds: vec![rd(1)] });
+            z.push(Rs { name: under(&["_ssh", "_tcp", "host1"], origin), ty: T_TXT, rds: vec![rd(3)] });
+            z.push(Rs { name: under(&["_ssh", "_tcp", "host2"], origin), ty: T_TXT, rds: vec![rd(4)] });
+            z.push(Rs { name: under(&["subdel"], origin), ty: T_NS, rds: vec![rdt(0, &nm("ns.other."))] });
+        }
+        4 => {
+            // wildcards at several depths, wildcard CNAME, ENT wildcard
+            for pre in [vec!["*"], vec!["*", "a"], vec!["*", "b", "a"], vec!["x", "*", "a"]] {
+                if r.chance(2, 3) {
+                    let ty = *r.pick(&[T_A, T_TXT, T_CNAME, T_MX]);
+                    let rds = match ty {
+                        T_CNAME => vec![rdt(0, &under(&[*r.pick(&["t", "nx", "q.a", "*.a"])], origin))],
+                        T_MX => vec![rdt(5, &under(&["t"], origin))],
+                        _ => vec![rd(1)],
+                    };
+                    z.push(Rs { name: under(&pre, origin), ty, rds });
+                }
+            }
+            z.push(Rs { name: under(&["t"], origin), ty: T_A, rds: vec![rd(8)] });
+            if r.chance(1, 2) {
+                z.push(Rs { name: under(&["a"], origin), ty: T_TXT, rds: vec![rd(6)] });
+            }
+        }
+        _ => {
+            // not well-formed on purpose: NS at a wildcard, SOA below the apex, owner outside
+            match r.below(3) {
+                0 => z.push(Rs { name: under(&["*"], origin), ty: T_NS, rds: vec![rdt(0, &nm("ns.other."))] }),
+                1 => {
+                    z.push(Rs { name: under(&["child"], origin), ty: T_SOA, rds: vec![rd(0)] });
+                    z.push(Rs { name: under(&["child"], origin), ty: T_NS, rds: vec![rdt(0, &nm("ns.other."))] });
+                    z.push(Rs { name: under(&["www", "child"], origin), ty: T_A, rds: vec![rd(1)] });
+                }
+                _ => {
+                    z.push(Rs { name: nm("*."), ty: T_A, rds: vec![rd(1)] });
+                    z.push(Rs { name: nm("www.other."), ty: T_A, rds: vec![rd(2)] });
+                }
+            }
+            z.push(Rs { name: under(&["www"], origin), ty: T_A, rds: vec![rd(1)] });
+        }
+    }
+    // "x.y" style prefixes given as one string above: split them
+    for rs in z.iter_mut() {
+        for x in rs.rds.iter_mut() {
+            if let Some(t) = &mut x.target {
+                *t = t.iter().flat_map(|l| l.split('.').map(String::from)).collect();
+            }
+        }
+        rs.name = rs.name.iter().flat_map(|l| l.split('.').map(String::from)).collect();
+    }
+    canon_zone(z)
+}
+
+/// small-scope enumeration (thorough tier): every assignment of a content option to five owner
+/// names x nine query names x the nine query types
+fn exhaustive(rec: &mut Recorder) {
+    let o = nm("e.");
+    let owners = [nm("a.e."), nm("*.e."), nm("b.a.e."), nm("*.a.e."), nm("c.e.")];
+    let qnames = [nm("e."), nm("a.e."), nm("b.a.e."), nm("c.e."), nm("x.e."), nm("x.a.e."), nm("x.b.a.e."), nm("*.e."), nm("x.*.e.")];
+    // options: nothing | A | TXT | CNAME a.e. | CNAME x.a.e. | NS (cut)
+    let n_opt = 6usize;
+    let total = n_opt.pow(owners.len() as u32);
+    for code in 0..total {
+        let mut z: Vec<Rs> = vec![
+            Rs { name: o.clone(), ty: T_SOA, rds: vec![rd(0)] },
+            Rs { name: o.clone(), ty: T_NS, rds: vec![rdt(0, &nm("ns.other."))] },
+        ];
+        let mut k = code;
+        for ow in &owners {
+            let opt = k % n_opt;
+            k /= n_opt;
+            match opt {
+                1 => z.push(Rs { name: ow.clone(), ty: T_A, rds: vec![rd(1)] }),
+                2 => z.push(Rs { name: ow.clone(), ty: T_TXT, rds: vec![rd(2)] }),
+                3 => z.push(Rs { name: ow.clone(), ty: T_CNAME, rds: vec![rdt(0, &nm("a.e."))] }),
+                4 => z.push(Rs { name: ow.clone(), ty: T_CNAME, rds: vec![rdt(0, &nm("x.a.e."))] }),
+                5 => z.push(Rs { name: ow.clone(), ty: T_NS, rds: vec![rdt(0, &nm("ns.other."))] }),
+                _ => {}
+            }
+        }
+        let z = canon_zone(z);
+        for (i, qn) in qnames.iter().enumerate() {
+            for (j, qt) in QTYPES.iter().enumerate() {
+                let c = Case { mode: 'u', origin: o.clone(), zone: z.clone(), qname: qn.clone(), qtype: *qt, dnssec_ok: false };
+                let l = case_line(&c);
+                exec(&l, rec);
+                if (code + i + j) % 5 == 0 {
+                    exec(&format!("dev{}", &l[1..]), rec);
+                }
+            }
+        }
+    }
+}
+
 pub fn run(o: &Opts, rec: &mut Recorder) {
-    rec.rule = "zones over a small name universe (apex SOA+NS, hosts, ENTs, wildcards at depth 1-3, CNAME chains / loops / out-of-zone targets, delegations with and without glue, DS at cuts, occluded data below cuts) x qnames in and around the zone x {A,AAAA,MX,NS,CNAME,SOA,DS,TXT,ANY}; a case is non-trivial unless the query is outside the zone or a plain NXDOMAIN in an apex-only zone; distinct by case line".into();
+    rec.rule = "zones over a small name universe (apex SOA+NS, hosts, ENTs, wildcards at depth 1-3, CNAME chains / loops / out-of-zone targets, delegations with and without glue, DS at cuts, occluded data below cuts, nested cuts, a few ill-formed zones) x qnames in and around the zone x {A,AAAA,MX,NS,CNAME,SOA,DS,TXT,ANY}; every q case has a dev twin comparing the harness' class predicates and the theorem statement with the Lean side; a case is non-trivial unless the query is outside the zone or a plain NXDOMAIN in an apex-only zone; distinct by case line".into();
     for l in o.pre_lines.clone() {
         exec(&l, rec);
+        if l.starts_with("q u ") {
+            exec(&format!("dev{}", &l[1..]), rec);
+        }
     }
     rec.corpus_cases = rec.cases.len();
     if o.replay_only {
@@ -1012,16 +1466,16 @@ pub fn run(o: &Opts, rec: &mut Recorder) {
     }
     let mut r = Rng::new(o.seed);
     let origin = nm("example.");
-    let zones = o.n(150, 3000);
-    for _ in 0..zones {
-        let z = gen_zone(&mut r, &origin);
+    let zones = o.n(260, 6000);
+    for zi in 0..zones {
+        let z = if zi % 3 == 2 { gen_special(&mut r, &origin) } else { gen_zone(&mut r, &origin) };
         let qs = gen_qnames(&mut r, &origin, &z);
         for (i, qn) in qs.iter().enumerate() {
-            if i >= 14 {
+            if i >= 16 {
                 break;
             }
             for qt in QTYPES {
-                if !r.chance(1, 2) && i >= 4 {
+                if !r.chance(1, 2) && i >= 5 {
                     continue;
                 }
                 let mut qn = qn.clone();
@@ -1029,8 +1483,11 @@ pub fn run(o: &Opts, rec: &mut Recorder) {
                     qn = qn.iter().map(|l| l.to_ascii_uppercase()).collect();
                 }
                 let c = Case { mode: 'u', origin: origin.clone(), zone: z.clone(), qname: qn, qtype: qt, dnssec_ok: r.chance(1, 8) };
-                exec(&case_line(&c), rec);
+                exec_both(&c, rec);
             }
         }
+    }
+    if o.thorough() {
+        exhaustive(rec);
     }
 }
